@@ -31,9 +31,10 @@ class PoolGen:
         self.linked = {}
         self.w = dict(sleep=10, update=30, peer=12, reconnect=5, close=3, reopen=3, addnode=4, withdraw=3,
                       deposit=2, forged=8, mode=3, credit=2, stale=2, account=1, legacy=2, client=1, host=1, stats=1,
-                      settlemode=1, burst=0, sburst=0, wburst=0, status=2, forgedrun=1, connectdrop=0)
+                      settlemode=1, burst=0, sburst=0, wburst=0, status=2, forgedrun=1, connectdrop=0, replay=3)
         if weights:
             self.w.update(weights)
+        self.captured = []
         self.cfg = cfg or {}
         # ticks of model time per second (1: whole seconds; 4: quarter seconds, validated with VipPoolTrace_fine.cfg)
         self.K = self.cfg.get("tick", 1)
@@ -123,6 +124,10 @@ class PoolGen:
         if alter in ("sigbyte", "shortsig"):
             op["pos"] = self.r.randint(0, 63)
             op["mask"] = self.r.choice([1, 2, 0x80, 0xff, 0x10])
+        if alter is None and not self.race:
+            self.captured.append(dict(op))      # what an eavesdropper has: the request exactly as sent
+            if len(self.captured) > 40:
+                self.captured.pop(self.r.randrange(20))
         return op
 
     def connect(self, node, full=None, alter=None, fresh=False):
@@ -424,6 +429,12 @@ class PoolGen:
             self.stale()
         elif kind == "forgedrun":
             self.forgedrun()
+        elif kind == "replay":
+            # a captured request sent again, byte for byte, possibly much later and after other identities acted
+            if self.captured:
+                op = dict(r.choice(self.captured))
+                if op.get("conn") in self.open:
+                    self.ops.append(op)
         elif kind == "mode":
             if self.open:
                 self.emit({"op": "Mode", "conn": r.choice(sorted(self.open)),
